@@ -80,7 +80,7 @@ def evidence_info(prop, tier):
                           'dup_member_checked'],
       'assumptions': [
           'mjx backend is not a native pipeline and is not exercised',
-          'unit quaternion tolerance 1e-5 (float32) / 1e-10 (float64)',
+          'unit quaternion tolerance 2e-6 in float32 (16x the worst value measured on the repaired tree, 1.2e-7)',
           'an environment that rejects a backend with ValueError("Unsupported '
           'backend") at construction does not support it (swimmer: spring, '
           'positional)'],
@@ -186,7 +186,7 @@ def execute(g, ctx):
     return brief
   acts = make_actions(g, A)
   ctx.log.inp('acts', acts)
-  rot_tol = 1e-10 if x64 else 1e-5
+  rot_tol = 1e-10 if x64 else 2e-6
 
   def body(st, a):
     ns = wenv.step(st, a)
@@ -218,6 +218,7 @@ def execute(g, ctx):
   fobs = np.asarray(final.obs)
   ctx.log.out('traj', [flags, done, trunc, reward, ck, fobs])
   ctx.steps = T * B
+  ctx.fault('schedule_' + g['kind'], B)
   ctx.sim_time = float(T * B)
   ctx.nontrivial = True
   nterm = int(((done > 0) & (trunc == 0)).sum())
